@@ -8,8 +8,9 @@ Local Open Scope N_scope.
 
 (* (1) escape sequences.  For every chunk (the text between the quotes of one physical line) spelled
    in the printer family of Spec/PoSyntax.v — literal characters and runs of escaped bytes, each byte
-   as a named escape, 1-3 octal digits or \x + 1-2 hex digits in either case — polib_unescape returns
-   the text the chunk denotes, and CPython emits no warning. *)
+   as a named escape, 1-3 octal digits or \x + ANY number >= 1 of hex digits in either case, the byte being
+   the value mod 256 as in gettext and C — polib_unescape returns the text the chunk denotes, and CPython
+   emits no warning.  (Model of the code after the repair of D29.) *)
 Theorem C10_unescape_roundtrip : forall dec, ascii_compatible dec -> forall ps, chunk_ok dec ps ->
   unescape dec (chunk_text ps) = Ok (chunk_value ps, false).
 Proof. exact unescape_roundtrip. Qed.
@@ -21,6 +22,24 @@ Theorem C10_unescape_roundtrip_chars : forall enc dec, ascii_compatible dec -> c
   forall sp, cspell_ok enc sp -> unescape dec (cspell_text sp) = Ok (map fst sp, false).
 Proof. exact unescape_roundtrip_chars. Qed.
 Print Assumptions C10_unescape_roundtrip_chars.
+
+(* D29 (repaired): a hexadecimal escape extends over EVERY hex digit that follows and contributes the single byte
+   (value of the digits) mod 256 — gettext's reading (po-lex.c control_sequence, case 'x'; C99 6.4.4.4).  In a chunk:
+   literal text before, literal text after that does not begin with a hex digit (it would be one more digit). *)
+Theorem C10_hex_escape_all_digits : forall dec, ascii_compatible dec -> forall pre d post t,
+  Forall lit_ok pre -> d <> [] -> Forall c_hex d ->
+  Forall lit_ok post -> match post with c :: _ => ~ c_hex c | [] => True end ->
+  dec [digits_value 16 c_hexval d mod 256] = Some t ->
+  unescape dec (pre ++ 92 :: 120 :: d ++ post) = Ok (pre ++ t ++ post, false).
+Proof. exact hex_escape_all_digits. Qed.
+Print Assumptions C10_hex_escape_all_digits.
+
+(* the same for the run alone, whatever the codec: the callback evaluates backslash x d1..dn to that one byte *)
+Theorem C10_hex_escape_run : forall dec d, d <> [] -> Forall c_hex d ->
+  unescape_run dec (92 :: 120 :: d) =
+  (do t <- decode_run dec [digits_value 16 c_hexval d mod 256]; Ok (t, false)).
+Proof. exact hex_run_byte. Qed.
+Print Assumptions C10_hex_escape_run.
 
 (* D14: outside the family (\8, \9, octal above \377) the value is kept or truncated and CPython
    writes a SyntaxWarning to stderr: that loading never writes to stderr is false. *)
@@ -236,6 +255,31 @@ Proof. vm_compute. repeat split; reflexivity. Qed.
 Example C10_ex_short :   (* \x5\1\18  ->  05 01 01 '8' *)
   unescape latin1 [92;120;53;92;49;92;49;56] = Ok ([5; 1; 1; 56], false).
 Proof. vm_compute. reflexivity. Qed.
+Example C10_ex_hex_all_digits :   (* a\x0cb = 61 CB;  \x41BC = BC;  \x0041 = 41;  \x5 = 05;  \x41\x42C\101 = 41 2C 41 *)
+  unescape latin1 [97; 92;120;48;99;98] = Ok ([97; 203], false) /\
+  unescape latin1 [92;120;52;49;66;67] = Ok ([188], false) /\
+  unescape latin1 [92;120;48;48;52;49] = Ok ([65], false) /\
+  unescape latin1 [92;120;53] = Ok ([5], false) /\
+  unescape latin1 [92;120;52;49; 92;120;52;50;67; 92;49;48;49] = Ok ([65; 44; 65], false).
+Proof. vm_compute. repeat split; reflexivity. Qed.
+Example C10_ex_hex_escaped_backslash :   (* \\x41BC is a backslash and the text x41BC; \\\x41BC is a backslash and BC; \x5\\ = 05 5C; \x41g = 41 'g' *)
+  unescape latin1 [92;92;120;52;49;66;67] = Ok ([92;120;52;49;66;67], false) /\
+  unescape latin1 [92;92;92;120;52;49;66;67] = Ok ([92; 188], false) /\
+  unescape latin1 [92;120;53;92;92] = Ok ([5; 92], false) /\
+  unescape latin1 [92;120;52;49;103] = Ok ([65; 103], false).
+Proof. vm_compute. repeat split; reflexivity. Qed.
+Example C10_ex_hex_theorem :    (* the theorem applies: x\x1F41y in ISO-8859-1 *)
+  unescape latin1 ([120] ++ 92 :: 120 :: [49;70;52;49] ++ [121]) = Ok ([120] ++ [65] ++ [121], false).
+Proof.
+  apply (C10_hex_escape_all_digits latin1).
+  - intros b _. reflexivity.
+  - repeat constructor; discriminate.
+  - discriminate.
+  - unfold c_hex. repeat constructor; cbv; intuition discriminate.
+  - repeat constructor; discriminate.
+  - unfold c_hex. cbv. intuition discriminate.
+  - reflexivity.
+Qed.
 Example C10_ex_D14 :     (* \777 -> 0xff with a warning;  \8a kept with a warning *)
   unescape latin1 [92;55;55;55] = Ok ([255], true) /\ unescape latin1 [92;56;97] = Ok ([92;56;97], true).
 Proof. vm_compute. repeat split; reflexivity. Qed.
